@@ -63,9 +63,21 @@ def _eval_test(t: ast.AST, state, flags: Dict[str, bool]) -> Optional[bool]:
     return None
 
 
-def _chunks_kind(value: ast.AST, state) -> Optional[str]:
+def _chunks_kind(value: ast.AST, state, local_kinds=None) -> Optional[str]:
     """locality of the codes held by an expression assigned to a local 'chunks' variable"""
     c = attr_chain(value)
+    # a list re-packing of the grouping's own chunks ([k.to_numpy() for k in self._group_ikey.chunks]) holds the same codes
+    if isinstance(value, ast.ListComp) and len(value.generators) == 1 and isinstance(value.generators[0].target, ast.Name):
+        g = value.generators[0]
+        if attr_chain(g.iter) in (("self", "_group_ikey", "chunks"), ("self", "group_ikey", "chunks")):
+            e = value.elt
+            tn = g.target.id
+            if (isinstance(e, ast.Name) and e.id == tn) or (
+                    isinstance(e, ast.Call) and isinstance(e.func, ast.Attribute) and isinstance(e.func.value, ast.Name)
+                    and e.func.value.id == tn and e.func.attr in ("to_numpy", "copy", "__array__") and not e.args) or (
+                    isinstance(e, ast.Call) and norm(e.func) in ("np.asarray", "np.array") and e.args
+                    and isinstance(e.args[0], ast.Name) and e.args[0].id == tn):
+                return "local-chunks" if state[1] == "local" else state[1]
     if c in (("self", "_group_ikey", "chunks"), ("self", "group_ikey", "chunks")):
         return state[1]
     if isinstance(value, ast.ListComp) and len(value.generators) == 1:
@@ -73,7 +85,9 @@ def _chunks_kind(value: ast.AST, state) -> Optional[str]:
         it = g.iter
         if isinstance(it, ast.Call) and norm(it.func) == "zip" and len(it.args) == 2 \
                 and attr_chain(it.args[0]) == ("self", "_group_key_pointers") \
-                and attr_chain(it.args[1]) in (("self", "_group_ikey", "chunks"), ("self", "group_ikey", "chunks")) \
+                and (attr_chain(it.args[1]) in (("self", "_group_ikey", "chunks"), ("self", "group_ikey", "chunks"))
+                     or (isinstance(it.args[1], ast.Name) and local_kinds is not None
+                         and local_kinds.get(it.args[1].id) == "local-chunks")) \
                 and isinstance(g.target, ast.Tuple) and len(g.target.elts) == 2:
             p, k = (e.id for e in g.target.elts)
             elt = value.elt
@@ -81,6 +95,14 @@ def _chunks_kind(value: ast.AST, state) -> Optional[str]:
             if isinstance(elt, ast.Subscript) and isinstance(elt.slice, ast.Name) and elt.slice.id == k \
                     and p in {n.id for n in ast.walk(elt.value) if isinstance(n, ast.Name)}:
                 return "global"
+            # X.take(k) / np.take(X, k) with X derived from p: the same re-mapping (null preservation is K2's job)
+            if isinstance(elt, ast.Call) and isinstance(elt.func, ast.Attribute) and elt.func.attr == "take" and elt.args:
+                if norm(elt.func.value) in ("np", "numpy") and len(elt.args) >= 2:
+                    tbl, idx = elt.args[0], elt.args[1]
+                else:
+                    tbl, idx = elt.func.value, elt.args[0]
+                if isinstance(idx, ast.Name) and idx.id == k and p in {n.id for n in ast.walk(tbl) if isinstance(n, ast.Name)}:
+                    return "global"
     return None
 
 
@@ -154,7 +176,7 @@ def _run_path(f: Func, p: SymPath, st0, flags) -> Optional[Tuple[tuple, List[str
             for t in s.targets:
                 c = attr_chain(t)
                 if isinstance(t, ast.Name):
-                    locals_def[t.id] = _chunks_kind(s.value, state)
+                    locals_def[t.id] = _chunks_kind(s.value, state, locals_def)
                 elif c == ("self", "_group_key_pointers"):
                     if isinstance(s.value, ast.Constant) and s.value.value is None:
                         state = (state[0], state[1], "none")
@@ -184,6 +206,22 @@ def _run_path(f: Func, p: SymPath, st0, flags) -> Optional[Tuple[tuple, List[str
             _check_loads(s.value, locals_def, params, problems)
             continue
         if isinstance(s, ast.Pass):
+            continue
+        if isinstance(s, (ast.For, ast.While, ast.AugAssign, ast.With, ast.Assert, ast.Delete)):
+            # a compound / other statement that touches locals only is opaque: its loads are checked, the names it
+            # binds become defined (of unknown code locality); a store to the grouping's state inside it is not interpreted
+            for n in ast.walk(s):
+                if isinstance(n, ast.Attribute) and isinstance(n.ctx, ast.Store) and attr_chain(n) and attr_chain(n)[0] == "self":
+                    raise AnalysisError(f"S1: {f.qualname} assigns {'.'.join(attr_chain(n))} inside {type(s).__name__}; cannot classify")
+            bound = {n.id for n in ast.walk(s) if isinstance(n, ast.Name) and isinstance(n.ctx, ast.Store)}
+            probe = ast.Module(body=[s], type_ignores=[])
+            inner_defs = dict(locals_def)
+            for b in bound:
+                inner_defs.setdefault(b, None)
+            _check_loads(probe, inner_defs, params, problems)
+            _check_pointer_reads(probe, state, problems)
+            for b in bound:
+                locals_def.setdefault(b, None)
             continue
         raise AnalysisError(f"S1: statement {norm(s)[:50]} of {f.qualname} outside the interpreted subset")
     return state, problems, p.describe()
